@@ -99,6 +99,11 @@ func FeatureMenu() []Slot {
 				return &FSpec{ID: s.W(0), Kind: KPath, Path: Refs(s.P(0), s.P(3), s.P(2), s.P(1), s.P(0))}
 			}},
 			absent(),
+			{"mixed-refs-across-namespaces", func(s IDScheme) *FSpec {
+				// under the mixed-ns scheme P(3) lives in another namespace than P(0), P(1):
+				// the delta base of primary-namespace references must survive a foreign one
+				return &FSpec{ID: s.W(0), Kind: KPath, Path: []PathPt{{Ref: s.P(1)}, {Ref: s.P(3)}, {LL: G(1, 1)}, {Ref: s.P(0)}, {Ref: s.P(2)}}, Tags: []TagSpec{{"#highway", "track"}}}
+			}},
 		}},
 		{Name: "pathB", Variants: []Variant{
 			absent(),
